@@ -19,6 +19,7 @@ import (
 
 func init() {
 	executors["slsend"] = execSlSend
+	executors["slhist"] = execSlHist
 	scenarios["slsend"] = genSlSend
 }
 
@@ -44,8 +45,53 @@ func parseSessionless(p []byte) ([]byte, string) {
 	return w[12:], ""
 }
 
+// sessionlessReplyMessage is the reference reading of a REPLY outside a session: an unauthenticated, unencrypted
+// RMCP+ IPMI payload; what the BMC put in the wrapper's session ID / sequence fields does not matter to the console
+func sessionlessReplyMessage(p []byte) []byte {
+	if len(p) < 16 || p[0] != 6 || p[3]&0x8f != 7 || p[4] != 6 || p[5] != 0 {
+		return nil
+	}
+	n := int(p[14]) | int(p[15])<<8
+	if len(p) < 16+n {
+		return nil
+	}
+	return p[16 : 16+n]
+}
+
+// slhist <7 slsend args> / <7 slsend args> / … : several session-less commands back to back on ONE connection; every
+// command must behave exactly as on a fresh connection (null session wrapper included), whatever the earlier replies
+// carried in their own wrappers
+func execSlHist(a []string) (string, string) {
+	var outs []string
+	verdict := ""
+	conn := &slConn{}
+	for len(a) >= 7 {
+		o, v := conn.run(a[:7])
+		outs = append(outs, o)
+		if v != "" && verdict == "" {
+			verdict = fmt.Sprintf("command %d on the connection: %s", len(outs), v)
+		}
+		a = a[7:]
+		if len(a) > 0 && a[0] == "/" {
+			a = a[1:]
+		}
+	}
+	return strings.Join(outs, " ; "), verdict
+}
+
+type slConn struct {
+	t      *bmc.V2SessionlessTransport
+	script []string
+	pos    int
+	sent   [][]byte
+	cancel context.CancelFunc
+	recv   []byte
+}
+
 // slsend <fn> <cmd> <body> <ent> <lun> <req|!> <script>
-func execSlSend(a []string) (string, string) {
+func execSlSend(a []string) (string, string) { return (&slConn{}).run(a) }
+
+func (conn *slConn) run(a []string) (string, string) {
 	fn, cmdNo, body, ent, lun := byte(atoi(a[0])), byte(atoi(a[1])), byte(atoi(a[2])), uint32(atoi(a[3])), byte(atoi(a[4]))
 	var req rawBody
 	if a[5] == "!" {
@@ -57,29 +103,30 @@ func execSlSend(a []string) (string, string) {
 	if a[6] != "-" {
 		script = strings.Split(a[6], ",")
 	}
-	var sent [][]byte
-	pos := 0
-	recv := make([]byte, 512)
 	ctx, cancel := context.WithTimeout(context.Background(), 10*time.Second)
 	defer cancel()
-	send := func(_ context.Context, p []byte) ([]byte, error) {
-		if pos >= len(script) {
-			cancel()
-			return nil, context.Canceled
-		}
-		sent = append(sent, append([]byte(nil), p...))
-		item := script[pos]
-		pos++
-		if item == "L" {
-			return nil, errors.New("timeout")
-		}
-		r := unhx(strings.TrimPrefix(item, "R:"))
-		for i := range recv {
-			recv[i] = 0xEE
-		}
-		return recv[:copy(recv, r)], nil
+	conn.script, conn.pos, conn.sent, conn.cancel = script, 0, nil, cancel
+	if conn.t == nil {
+		conn.recv = make([]byte, 512)
+		conn.t = bmc.VerifNewV2SessionlessTransport(func(_ context.Context, p []byte) ([]byte, error) {
+			if conn.pos >= len(conn.script) {
+				conn.cancel()
+				return nil, context.Canceled
+			}
+			conn.sent = append(conn.sent, append([]byte(nil), p...))
+			item := conn.script[conn.pos]
+			conn.pos++
+			if item == "L" {
+				return nil, errors.New("timeout")
+			}
+			r := unhx(strings.TrimPrefix(item, "R:"))
+			for i := range conn.recv {
+				conn.recv[i] = 0xEE
+			}
+			return conn.recv[:copy(conn.recv, r)], nil
+		}, 50*time.Millisecond, &backoff.ZeroBackOff{})
 	}
-	t := bmc.VerifNewV2SessionlessTransport(send, 50*time.Millisecond, &backoff.ZeroBackOff{})
+	t := conn.t
 	c := &rawCmd{op: ipmi.Operation{Function: ipmi.NetworkFunction(fn), Body: ipmi.BodyCode(body), Enterprise: iana.Enterprise(ent),
 		Command: ipmi.CommandNumber(cmdNo)}, lun: ipmi.LUN(lun), req: req}
 	res := ""
@@ -98,6 +145,7 @@ func execSlSend(a []string) (string, string) {
 	default:
 		res = "err"
 	}
+	sent := conn.sent
 	var sh []string
 	for _, p := range sent {
 		sh = append(sh, hx(p))
@@ -139,7 +187,7 @@ func execSlSend(a []string) (string, string) {
 			if item == "L" {
 				continue
 			}
-			m, _ := parseSessionless(unhx(strings.TrimPrefix(item, "R:")))
+			m := sessionlessReplyMessage(unhx(strings.TrimPrefix(item, "R:")))
 			if m == nil || len(m) < 8 || csum(m[:2]) != m[2] || csum(m[3:len(m)-1]) != m[len(m)-1] {
 				continue
 			}
@@ -244,4 +292,38 @@ func genSlSend(g *genCtx) {
 			fmt.Sprint(ent), itoa(int(lun)), req, strings.Join(items, ",")}})
 	}
 	g.emit(Op{Class: 'P', NonTrivial: true, Kind: "slsend", Args: []string{"6", "59", "0", "0", "0", "!", "L"}})
+	// histories on one connection: a command answered (also) by replies whose own wrapper carries a non-zero session ID /
+	// sequence number, an authenticated flag, or an OEM payload descriptor, followed by other commands
+	odd := func(fn, cmdNo byte, cc byte) string {
+		c := cc
+		m := specMessage(0x81, fn|1, 0, 0x20, 1, 0, cmdNo, &c, nil, []byte{9, 8, 7})
+		w := specV2(0, false, false, 0, 0, 0x11223344, 9, m, 0, nil)
+		return "R:" + hx(append([]byte{6, 0, 0xff, 7}, w...))
+	}
+	okR := func(fn, cmdNo byte) string {
+		return "R:" + hx(wrapSessionless(0, ipmiRsp(fn, cmdNo, 0, []byte{1})))
+	}
+	for i := 0; i < 40; i++ {
+		var args []string
+		n := 2 + g.rng.Intn(3)
+		for k := 0; k < n; k++ {
+			fn, cmdNo := byte(g.rng.Intn(0x16))<<1, byte(g.rng.Intn(256))
+			var items []string
+			switch g.rng.Intn(4) {
+			case 0:
+				items = []string{odd(fn, cmdNo, 0)}
+			case 1:
+				items = []string{odd(fn, cmdNo, 0xC0), okR(fn, cmdNo)}
+			case 2:
+				items = []string{"R:" + hx(append([]byte{6, 0, 0xff, 7}, specV2(2, false, false, 0x1234, 7, 5, 6, []byte{1, 2, 3}, 0, nil)...)), okR(fn, cmdNo)}
+			default:
+				items = []string{okR(fn, cmdNo)}
+			}
+			if k > 0 {
+				args = append(args, "/")
+			}
+			args = append(args, itoa(int(fn)), itoa(int(cmdNo)), "0", "0", itoa(g.rng.Intn(4)), hx(rbytes(g.rng, g.rng.Intn(12))), strings.Join(items, ","))
+		}
+		g.emit(Op{Class: 'P', NonTrivial: true, Kind: "slhist", Args: args})
+	}
 }
